@@ -3,7 +3,7 @@ from props._local import known_witnesses
 
 
 def run(ctx):
-    corr, violations = run_walks(ctx, {"shrink", "queue", "fixpoint", "entailed"}, {"bc"}, 250, 4000,
+    corr, violations = run_walks(ctx, {"shrink", "queue", "fixpoint", "entailed"}, {"bc"}, 250, 15000,
                                  ["self_wake_skipped", "duplicate_shared_domain"])
     import trig_sweep
     d, v = trig_sweep.sweep(ctx, ctx["report"])
